@@ -65,15 +65,16 @@ def run(c: Check):
         if e["find_calls"] != 1:
             raise Undecided("Find was called %d times for event %d" % (e["find_calls"], e["id"]))
     want = {"proto": 5, "path": 6, "ui": 7, "sni": 9, "edns": 5, "local": 4, "remote": 3, "auth": 3}
+    vacuous = []
     for f, n in want.items():
         if len(seen[f]) != n:
-            raise Undecided("vacuous: field %s only saw %s" % (f, sorted(seen[f])))
+            vacuous.append("field %s only saw %s" % (f, sorted(seen[f])))
     for k in ("ok", "anon", "authfail", "drop", "error"):
         if kinds.get(k, 0) < 10:
-            raise Undecided("vacuous: result kind %s seen %d times" % (k, kinds.get(k, 0)))
+            vacuous.append("result kind %s seen %d times" % (k, kinds.get(k, 0)))
     for d in ("dev", "oth", "auto"):
         if devs.get(d, 0) < 10:
-            raise Undecided("vacuous: device %s recognised %d times" % (d, devs.get(d, 0)))
+            vacuous.append("device %s recognised %d times" % (d, devs.get(d, 0)))
 
     bad, div = [], []
     CHUNK = 60000
@@ -123,6 +124,8 @@ def run(c: Check):
             continue
         seen_sig.add(key)
         c.violation(sig, "C03 %s: %s" % (reasons, describe(e)), e)
+    if vacuous and not c.violations:
+        raise Undecided("vacuous run: " + "; ".join(vacuous))
     c.assumptions += [
         "the abstraction function (concrete request -> class) is the concretiser's inverse by construction; ids are "
         "generated so that classes do not overlap (at most one hyphen in device ids, configured domains lower-case)",
